@@ -165,6 +165,8 @@ class ExtMixin(object):
         if isinstance(v, NTV):
             return Num(ep.const(len(v.values)))
         if isinstance(v, DictV):
+            if getattr(v, "symkeys", False):
+                self.err(node, "len() of a dictionary whose keys may coincide (undecided key equality)")
             return Num(ep.const(len(v.items)))
         if isinstance(v, Const) and isinstance(v.v, str):
             return Num(ep.const(len(v.v)))
@@ -1408,9 +1410,18 @@ class ExtMixin(object):
         k = args[0].key()
         if k in base.items:
             return base.items[k][1]
+        default = args[1] if len(args) > 1 else NONE
         if concrete_key(args[0]) and all(concrete_key(kk) for kk, _ in base.items.values()):
-            return args[1] if len(args) > 1 else NONE
-        self.err(node, "dict.get with symbolic key on concrete dict")
+            return default
+        kind, res = self.dict_lookup(base, args[0], node)
+        if kind == "hit":
+            return res
+        if kind == "miss":
+            return default
+        out = default
+        for c, v in reversed(res):
+            out = make_phi(c, v, out)
+        return out
 
     def m_DictV_setdefault(self, base, args, kwargs, node):
         k = args[0].key()
